@@ -431,6 +431,9 @@ func explore(c *core.Ctx, cs Case, maxPre, limit int) {
 		base = r.Chosen
 	}
 	sched.ExploreBFS(func(prefix []int) sched.Result {
+		pc := cs
+		pc.Choices = prefix
+		c.Pending(pc) // if the run kills the process, this is the failing input
 		r, info := execute(cs, sched.Prefix(prefix), true)
 		report(c, cs, r, info)
 		return r
@@ -608,6 +611,7 @@ func run(c *core.Ctx) {
 			r0, _ := execute(Case{RW: cs.RW, Prefix: cs.Prefix, Progs: [][]Block{{}}}, sched.NonPreemptive, false)
 			base = r0.Chosen
 		}
+		c.Pending(cs)
 		r, info := execute(cs, sched.Then(base, sched.Random(c.Rng.Intn, 40)), true)
 		report(c, cs, r, info)
 	}
